@@ -296,6 +296,7 @@ def run(ctx):
     ctx.guard(helpers.interpolate_pva, ctx, py, "C09")
     ctx.guard(helpers.numpy_contracts_standin, ctx, py, "C09")
     ctx.guard(_standin, ctx, py)
+    ctx.guard(_long_run, ctx, py)
 
     # "exactly once" rests on the measurement models' contract "None iff the time is absent from the table" (C06), re-established here
     from props import C06 as _C06
@@ -393,6 +394,45 @@ def _standin(ctx, py):
             fails.append(dict(schedule=s, observed=r["what"]))
     ctx.standin("C09.rt", "%d seeded schedules (uniform/irregular/gapped IMU of 3..25 increments, 0..3 sensors: on-sample, fractional, clustered 2..4 per interval, shared, out-of-span stamps; time_step 0.03 .. 2x span; measurements None/[]; both altitude modes): observable statement of C09 on the real filter under a line budget" % n,
                 n, fails, time_s=time.time() - t0)
+
+
+def _long_run(ctx, py):
+    """Thorough tier only (about a minute): ONE long run -- 4300 increments at 100 Hz, a record at every increment (time_step
+    below the sampling interval), position fixes every 2.5 s -- so that whatever a filter keeps per record (history lists, work
+    buffers, block-wise summaries) is used well past any small capacity.  Observable statement of C09 on the tables."""
+    if ctx.tier == "quick":
+        return
+    t0 = time.time()
+    n = 4300
+    T = np.round(0.01 * np.arange(1, n + 1), 10)
+    inc = sched._increments(py, 0.0, T)
+    pva = sched._pva0(0.0)
+    stamps = [float(x) for x in T[249::250][:-1]]
+    meas = sched._sensors(py, [stamps])
+    fails = []
+    try:
+        res = py.filters.run_feedback_filter(pva, 5.0, 0.5, 1.0, 2.0, inc, measurements=meas, time_step=0.005)
+        if list(res.trajectory.index) != [0.0] + [float(x) for x in T]:
+            fails.append(dict(what="trajectory index is not t0 followed by every increment time once"))
+        ref = list(res.trajectory_sd.index)
+        traj_times = set(res.trajectory.index)
+        for nm in ("trajectory_sd", "gyro_sd", "accel_sd", "gyro", "accel"):
+            idx = [float(x) for x in res[nm].index]
+            if any(b <= a for a, b in zip(idx, idx[1:])):
+                fails.append(dict(table=nm, what="index not strictly increasing (%d rows, %d distinct stamps)" % (len(idx), len(set(idx)))))
+            if not set(idx) <= traj_times:
+                fails.append(dict(table=nm, what="index not a subset of the trajectory times"))
+            if idx != [float(x) for x in ref]:
+                fails.append(dict(table=nm, what="indexed differently from trajectory_sd"))
+            if res[nm].size and not np.all(np.isfinite(res[nm].values.astype(float))):
+                fails.append(dict(table=nm, what="not finite"))
+        got = [float(x) for x in res.innovations["Position"].index]
+        if got != stamps:
+            fails.append(dict(what="innovations stamped %s ..., expected %s ..." % (got[:4], stamps[:4])))
+    except Exception as exc:
+        fails.append(dict(what="raised %r" % (exc,)))
+    ctx.standin("C09.rt.long_run", "one run of %d increments at 100 Hz with a record at every increment and %d position fixes: trajectory index, strictly increasing and mutually equal "
+                "indices of the five estimate / sd tables, finite values, one innovation row per fix" % (n, len(stamps)), 1, fails, time_s=time.time() - t0)
 
 
 def replay(obligation, cex):
